@@ -159,6 +159,15 @@ func (ex *Exec) execInstr(fr *Frame, st *State, in ssa.Instruction) {
 			ex.allocAsserts(fr, st, x)
 			p := ex.newObj()
 			st.heap.store(p, et, zeroVal(et))
+			if nt, ok := et.(*types.Named); ok && nt.Obj().Pkg() != nil {
+				// ghost content of the modelled library buffers starts empty
+				switch nt.Obj().Pkg().Path() + "." + nt.Obj().Name() {
+				case "strings.Builder":
+					st.heap.storeLeaf(Fld(p, builderContentField), StrLit(""))
+				case "bytes.Buffer":
+					st.heap.storeLeaf(Fld(p, bufferContentField), StrLit(""))
+				}
+			}
 			fr.regs[x] = p
 			if privateCell(x) {
 				ex.private = append(ex.private, privCell{p, et})
@@ -239,6 +248,12 @@ func (ex *Exec) execInstr(fr *Frame, st *State, in ssa.Instruction) {
 		st.heap.mapSet(m, mt, ex.term(fr, x.Key), ex.operand(fr, x.Value))
 	case *ssa.Range:
 		fr.regs[x] = ex.operand(fr, x.X)
+		if b, ok := x.X.Type().Underlying().(*types.Basic); ok && b.Info()&types.IsString != 0 {
+			if st.iters == nil {
+				st.iters = map[*ssa.Range]*Term{}
+			}
+			st.iters[x] = IntT(0)
+		}
 	case *ssa.Next:
 		fr.regs[x] = ex.next(fr, st, x)
 	case *ssa.Call:
@@ -757,21 +772,32 @@ func (ex *Exec) next(fr *Frame, st *State, x *ssa.Next) Val {
 	rng := x.Iter.(*ssa.Range)
 	ok := Fresh("rng.ok", SBool)
 	if x.IsString {
+		// position-tracking iterator: yields (pos, rune at pos) and advances by the rune's width;
+		// bytes < 0x80 are one-byte runes, other runes are >= 0x80 and 1..4 bytes wide.
 		s := ex.term(fr, rng.X)
-		i := Fresh("rng.i", SInt)
+		pos := st.iters[rng]
+		if pos == nil {
+			unsupp("string range iterator without position")
+		}
+		L := ex.slen(s)
+		okT := Lt(pos, L)
+		b := SAt(s, pos)
 		r := Fresh("rng.r", SInt)
-		b := SAt(s, i)
-		ex.fact(st, Implies(ok, And(Ge(i, IntT(0)), Lt(i, ex.slen(s)), Ge(r, IntT(0)),
-			Implies(Lt(b, IntT(128)), Eq(r, b)), Implies(Ge(b, IntT(128)), Ge(r, IntT(128))))))
-		ex.fact(st, And(Ge(b, IntT(0)), Lt(b, IntT(256))))
-		ex.fact(st, Implies(Eq(ex.slen(s), IntT(0)), Not(ok)))
-		return &Agg{F: []Val{ok, i, r}}
+		w := Fresh("rng.w", SInt)
+		ex.fact(st, And(Ge(pos, IntT(0)), Le(pos, L)))
+		ex.fact(st, Implies(okT, And(Ge(b, IntT(0)), Lt(b, IntT(256)),
+			Implies(Lt(b, IntT(128)), And(Eq(r, b), Eq(w, IntT(1)))),
+			Implies(Ge(b, IntT(128)), And(Ge(r, IntT(128)), Ge(w, IntT(1)), Le(w, IntT(4)))),
+			Le(Add(pos, w), L))))
+		st.iters[rng] = Ite(okT, Add(pos, w), pos)
+		return &Agg{F: []Val{okT, pos, r}}
 	}
 	mt := rng.X.Type().Underlying().(*types.Map)
 	m := ex.term(fr, rng.X)
 	k := Fresh("rng.k", mapKeySort(mt))
 	ex.fact(st, Implies(ok, st.heap.mapHas(m, mt, k)))
 	ex.fact(st, Implies(Eq(m, Null()), Not(ok)))
+	ex.fact(st, Implies(Eq(st.heap.mapLen(m), IntT(0)), Not(ok)))
 	var fs []*Term
 	kv := Val(k)
 	typeFacts(kv, mt.Key(), &fs)
